@@ -53,7 +53,7 @@ Definition check_spec (c : case) : bool :=
   let obs := c_obs c in
   let (cs, ds) := span_cmd obs in
   c_one_pdv c
-  && forallb (fun t => (lenN (snd t) + 6 <=? c_m c) && (ctx3 t =? c_pc c) && negb (is_nil (snd t))) obs
+  && forallb (fun t => (lenN (snd t) + 6 <=? eff_max (c_m c)) && (ctx3 t =? c_pc c) && negb (is_nil (snd t))) obs
   && forallb (fun t => is_data_ctl (ctl3 t)) ds
   && obs_flags_ok 1 3 cs
   && (if is_nil (c_data c) then is_nil ds else obs_flags_ok 0 2 ds)
